@@ -506,7 +506,7 @@ func c13ConnectionFlood(c *Ctx) {
 		}
 		// … and verified controllers doing ordinary things at the same time: two subscribe and unsubscribe in turn, one
 		// writes the value, one reads the database
-		for g := 0; g < 4; g++ {
+		for g := 0; g < 6; g++ {
 			wg.Add(1)
 			go func(g int) {
 				defer wg.Done()
@@ -531,8 +531,8 @@ func c13ConnectionFlood(c *Ctx) {
 					switch g {
 					case 0, 1:
 						_, err = cl.Do("PUT", "/characteristics", "application/hap+json", []byte(fmt.Sprintf(`{"characteristics":[{"aid":%d,"iid":%d,"ev":%v}]}`, acc.aid, acc.iid, k%2 == 0)))
-					case 2:
-						_, err = cl.Do("PUT", "/characteristics", "application/hap+json", []byte(fmt.Sprintf(`{"characteristics":[{"aid":%d,"iid":%d,"value":%v}]}`, acc.aid, acc.iid, k%2 == 0)))
+					case 2, 4, 5:
+						_, err = cl.Do("PUT", "/characteristics", "application/hap+json", []byte(fmt.Sprintf(`{"characteristics":[{"aid":%d,"iid":%d,"value":%v}]}`, acc.aid, acc.iid, (k+g)%2 == 0)))
 					default:
 						_, err = cl.Do("GET", "/accessories", "", nil)
 					}
@@ -542,7 +542,7 @@ func c13ConnectionFlood(c *Ctx) {
 						if es := err.Error(); k > 0 && (strings.Contains(es, "EOF") || strings.Contains(es, "reset") || strings.Contains(es, "broken pipe")) {
 							droppedMu.Lock()
 							if dropped == "" {
-								dropped = fmt.Sprintf("controller %d, request %d (%s): %s", g, k, []string{"subscribe / unsubscribe", "subscribe / unsubscribe", "write a value", "GET /accessories"}[g], es)
+								dropped = fmt.Sprintf("controller %d, request %d (%s): %s", g, k, []string{"subscribe / unsubscribe", "subscribe / unsubscribe", "write a value", "GET /accessories", "write a value", "write a value"}[g], es)
 							}
 							droppedMu.Unlock()
 						}
@@ -552,14 +552,14 @@ func c13ConnectionFlood(c *Ctx) {
 				}
 			}(g)
 		}
-		time.Sleep(time.Duration(c.Pick(1500, 6000)) * time.Millisecond)
+		time.Sleep(time.Duration(c.Pick(2500, 8000)) * time.Millisecond)
 		close(stop)
 		wg.Wait()
 		time.Sleep(100 * time.Millisecond)
 		c.Count("e2e-churn", acc.Alive(), "e2e:churn")
 		if dropped != "" && acc.Alive() {
 			c.Violate("a request of a verified controller is answered by a dropped connection while other peers connect and disconnect", id,
-				map[string]interface{}{"goroutines_connecting_and_closing": 12, "connections": atomic.LoadInt64(&churned), "verified_controllers": 4}, "a response", dropped)
+				map[string]interface{}{"goroutines_connecting_and_closing": 12, "connections": atomic.LoadInt64(&churned), "verified_controllers": 6}, "a response", dropped)
 		}
 		if !acc.Alive() {
 			c.Violate("the accessory process ends when many connections come and go at once", id, map[string]interface{}{"goroutines_connecting_and_closing": 12, "connections": atomic.LoadInt64(&churned)}, "still running", "exited")
